@@ -428,10 +428,12 @@ func CliqueRich(t *rapid.T, n int) ([][]int, []string) {
 
 // Ladder draws formulas whose refutation / search goes through learned clauses with hundreds or
 // thousands of literals: a long clause x_1 v ... v x_n (split on a helper y), then one of three tails:
-//   "unsat":  x_k -> x_k+1 for all k (each split on a helper z_k) and not x_n (split on w): unsatisfiable;
-//   "sat":    the same without "not x_n": satisfiable;
-//   "gadget": only x_1 -> x_2 v q1 v q2 (split on z): satisfiable, the second conflict resolves on the
-//             n-literal learned clause.
+//
+//	"unsat":  x_k -> x_k+1 for all k (each split on a helper z_k) and not x_n (split on w): unsatisfiable;
+//	"sat":    the same without "not x_n": satisfiable;
+//	"gadget": only x_1 -> x_2 v q1 v q2 (split on z): satisfiable, the second conflict resolves on the
+//	          n-literal learned clause.
+//
 // Variables are numbered in a drawn order (helpers first or last, x ascending or descending), which
 // decides the order of the solver's first decisions. It returns n(variables), clauses and the tail kind.
 func Ladder(t *rapid.T, nx int) (int, [][]int, string) {
